@@ -69,6 +69,11 @@ def run(prog, rep, tier):
     i1_structure(prog, rep, body, L)
     i1_callers(prog, rep)
     i2_i3(prog, rep, tier, body, L)
+    # "never a wrong position" rests on the decoders decode_position calls: the rules of C04 (global decoding) and
+    # C05 (reference decoding) are evaluated under this property as well
+    from props import c04, c05
+    c04.run(prog, util.Prefixed(rep, 'D4-global-decoder/'), tier)
+    c05.run(prog, util.Prefixed(rep, 'D5-reference-decoder/'), tier)
 
 
 def i1_structure(prog, rep, body, L):
